@@ -70,3 +70,11 @@ assumptions = ("ONLY the producer call (OnEnd / OnEmit) is decided, as one seque
                "the chain 'queued exactly once -> exported exactly once' relies on ./check C11 (Add) and ./check C03 (whole Export()); Consume / ForEach are boundaries there")
 not_covered = ("all interleavings (the property proper)", "per-producer FIFO order", "DrainQueue at shutdown", "the lock-free queue under concurrency")
 refuters = {}
+
+
+# the consumer side as one sequential call: the whole Export() of both processors (the proofs of ./check C03) also states the exactly-once hand-over:
+# as many records are handed to the exporter as were taken from the queue, in every round, whatever the exporter returns
+for _p in _c03._pfull:
+    _p.contracts = {"BatchSpanProcessor_Export": _c03.contracts["BatchSpanProcessor_Export"], "BatchLogRecordProcessor_Export": _c03.contracts["BatchLogRecordProcessor_Export"]}
+    proofs.append(_p)
+    refuters[_p.name] = _c03.refute_native
